@@ -12,6 +12,7 @@
  *     Area{E,err,add}                           curve_area(xy,0) vs s * exact area; additivity over every split point (1e-12 units)
  * ledger: random knot sets, 3..40 knots, spacing decades 1e-4..1e4, uniform / irregular, arbitrary ordinates.  Events:
  *     Ledger{id,nk,dec,irr,interp,c1,c2,nat,lin,unit,lookup}   residuals in 1e-12 units (relative), lookup = number of wrong pieces
+ *     Interp{id,nk,dec,np,dims,mono,val,first,ends,lin}        the one-call form interpolate() against the two-call form
  *     AreaL{id,nk,dec,exact,add}
  */
 #include "scientific.h"
@@ -129,6 +130,32 @@ static void analyse(int nk, double *x, double *y, resid *r, double *pred_out){
   DelMatrix(&xy); DelMatrix(&S);
 }
 
+/* interpolate(): the one-call form.  Residuals against the two-call form (cubic_spline_interpolation + cubic_spline_predict at the
+ * very abscissae interpolate() returned), the first data point, the range ends and - for straight-line data - the line itself. */
+typedef struct { int dims; double val, first, ends, lin; int mono; } iresid;
+static void analyse_interp(int nk, double *x, double *y, int np, int line, double q0, double m, iresid *r){
+  matrix *xy, *S, *out; NewMatrix(&xy, nk, 2); initMatrix(&S); NewMatrix(&out, 3, 5);   /* a sized, non-empty output: must be reshaped */
+  for(int i = 0; i < nk; i++){ xy->data[i][0] = x[i]; xy->data[i][1] = y[i]; }
+  for(size_t i = 0; i < out->row; i++) for(size_t j = 0; j < out->col; j++) out->data[i][j] = 12345.0;
+  cubic_spline_interpolation(xy, S);
+  interpolate(xy, (size_t)np, out);
+  double ymax = 0, range = x[nk - 1] - x[0];
+  for(int i = 0; i < nk; i++) if(fabs(y[i]) > ymax) ymax = fabs(y[i]);
+  if(ymax == 0) ymax = 1;
+  r->dims = ((int)out->row == np && out->col == 2); r->val = r->first = r->ends = r->lin = 0; r->mono = 1;
+  if(r->dims){
+    for(int i = 0; i < np; i++){
+      double xo = out->data[i][0], yo = out->data[i][1];
+      double e = fabs(yo - predict1(S, xo)) / ymax; if(!(e <= r->val)) r->val = e;
+      if(i > 0 && !(xo > out->data[i - 1][0])) r->mono = 0;
+      if(line){ e = fabs(yo - (q0 + m * (xo - x[0]))) / ymax; if(!(e <= r->lin)) r->lin = e; }
+    }
+    r->first = fabs(out->data[0][1] - y[0]) / ymax;
+    r->ends = fmax(fabs(out->data[0][0] - x[0]), fabs(out->data[np - 1][0] - x[nk - 1])) / range;
+  }
+  DelMatrix(&xy); DelMatrix(&S); DelMatrix(&out);
+}
+
 static int ledger(const char *out, unsigned long seed, int count){
   vrt_open(out);
   vrng g = { seed * 2654435761UL + 17 };
@@ -167,6 +194,14 @@ static int ledger(const char *out, unsigned long seed, int count){
     }
     VRT_EMIT("{\"e\":\"Ledger\",\"id\":%d,\"nk\":%d,\"dec\":%d,\"irr\":%d,\"interp\":%ld,\"c1\":%ld,\"c2\":%ld,\"nat\":%ld,\"lin\":%ld,\"unit\":%ld,\"lookup\":%ld}",
              id, nk, dec, irr, vq12(r.interp), vq12(r.c1), vq12(r.c2), vq12(r.nat), vq12(lin), vq12(unit), r.wrong + r2.wrong + rl.wrong);
+    { /* the one-call form interpolate(): 2 points, as many as knots, and a dense grid */
+      int nps[3] = {2, nk, 3 * nk + 1};
+      for(int t = 0; t < 3; t++){
+        iresid a, b; analyse_interp(nk, x, y, nps[t], 0, 0, 0, &a); analyse_interp(nk, x, yl, nps[t], 1, q0, m, &b);
+        VRT_EMIT("{\"e\":\"Interp\",\"id\":%d,\"nk\":%d,\"dec\":%d,\"np\":%d,\"dims\":%d,\"mono\":%d,\"val\":%ld,\"first\":%ld,\"ends\":%ld,\"lin\":%ld}",
+                 id, nk, dec, nps[t], a.dims && b.dims, a.mono && b.mono, vq12(fmax(a.val, b.val)), vq12(fmax(a.first, b.first)), vq12(fmax(a.ends, b.ends)), vq12(b.lin));
+      }
+    }
     /* trapezoid: against an independent long double sum, and additivity over every split */
     long double ex = 0, norm = 0;
     for(int i = 0; i + 1 < nk; i++){ long double t = ((long double)x[i + 1] - x[i]) * (((long double)y[i] + y[i + 1]) / 2); ex += t; norm += fabsl(((long double)x[i + 1] - x[i]) * ((fabsl(y[i]) + fabsl(y[i + 1])) / 2)); }
